@@ -1111,6 +1111,9 @@ func builtinText(interp *Interpreter, args []Expr, env *Environment) (interface{
 			return nil, fmt.Errorf("text() second argument must be an integer status code, got %T", codeVal)
 		}
 	}
+	if err := ValidateStatusCode("text", statusCode); err != nil {
+		return nil, err
+	}
 	return &TextResponse{Body: bodyStr, StatusCode: statusCode}, nil
 }
 
@@ -1142,6 +1145,9 @@ func builtinHTML(interp *Interpreter, args []Expr, env *Environment) (interface{
 		default:
 			return nil, fmt.Errorf("html() second argument must be an integer status code, got %T", codeVal)
 		}
+	}
+	if err := ValidateStatusCode("html", statusCode); err != nil {
+		return nil, err
 	}
 	return &HTMLResponse{Body: bodyStr, StatusCode: statusCode}, nil
 }
@@ -1190,6 +1196,9 @@ func builtinBlob(interp *Interpreter, args []Expr, env *Environment) (interface{
 		default:
 			return nil, fmt.Errorf("blob() third argument must be an integer status code, got %T", codeVal)
 		}
+	}
+	if err := ValidateStatusCode("blob", statusCode); err != nil {
+		return nil, err
 	}
 	return &BlobResponse{Data: data, ContentType: contentType, StatusCode: statusCode}, nil
 }
